@@ -349,8 +349,8 @@ PROPS["C03"] = dict(
     kinds=[handle_kind(["c03-"])],
     rule=ROUTER_RULE, assumptions=["loopback delivery; 6 s deadline literal observed with 1.5 s slack"], trusted=ROUTER_TRUST,
     level_note="Partial: wall-clock latency and 'exactly one datagram on the wire' are observed end-to-end, not proved; "
-               "DoT/DoH-TLS/DoQ listeners share the handler and packers with the plain ones and are exercised only in the "
-               "thorough tier.")
+               "all eight listener kinds (udp, tcp, gnet, tls, http, fasthttp, https, quic) are exercised over real "
+               "loopback sockets; the 6 s deadline is a literal observed with 1.5 s slack.")
 PROPS["C10"] = dict(
     kinds=[handle_kind(["c10-"])],
     rule=ROUTER_RULE, assumptions=[], trusted=ROUTER_TRUST,
@@ -360,7 +360,10 @@ PROPS["C12"] = dict(
     kinds=[handle_kind(["c12-"]),
            dict(name="packreq", gen=packreq_gen, shards=8, timeout=600, nontrivial=lambda l, r: r.startswith("OK"))],
     rule=ROUTER_RULE, assumptions=["inputs carry at most one OPT record, in the additional section (RFC 6891)"],
-    trusted=ROUTER_TRUST, level_note="")
+    trusted=ROUTER_TRUST,
+    level_note="C12: the OPT records of every response (own fresh OPT iff the query had one; independent of the reply's and the "
+               "query's options), the shape of every upstream query and the ECS option (form, length, privacy) are proved for "
+               "all inputs; the restriction to at most one OPT per message (in the additional section) is the property's own.")
 
 # C09 also runs the handle kind: the listeners' size limits are observed on the bytes real clients receive
 PROPS["C09"]["kinds"].append(handle_kind(["c09-"]))
